@@ -4,10 +4,20 @@ import "strings"
 
 func Find(p Meta, path string) Definition {
 	if strings.HasPrefix(path, "../") {
-		if p.Parent() == nil {
+		// a step up in the data tree: choice and case are not nodes of it (RFC7950 Sec 7.9)
+		up := p.Parent()
+		for up != nil {
+			_, isChoice := up.(*Choice)
+			_, isCase := up.(*ChoiceCase)
+			if !isChoice && !isCase {
+				break
+			}
+			up = up.Parent()
+		}
+		if up == nil {
 			return nil
 		}
-		return Find(p.Parent(), path[3:])
+		return Find(up, path[3:])
 	}
 	if strings.HasPrefix(path, "/") {
 		return Find(RootModule(p), path[1:])
